@@ -30,6 +30,10 @@ structure Facts12 where
   errRead : ErrRead
   /-- shared locations (outside the modelled caches) that a request was observed to write -/
   parked : List String
+  /-- mutable attributes of the per-request context *classes* (MethodContext, TransportContext, …,
+      ProtocolContext, EventContext) that a request was observed to mutate: such a "context cell" is
+      one object shared by all requests -/
+  sharedContextCells : List String
 
 def Facts12.rfacts (F : Facts12) : RFacts where
   order := fun c => match c with
@@ -38,11 +42,13 @@ def Facts12.rfacts (F : Facts12) : RFacts where
     | .memo => F.memoPublish
     | .cdict => F.cdictPublish
   errRead := F.errRead
+  ctxShared := fun _ => !F.sharedContextCells.isEmpty
 
 /-- the values every C12 theorem needs -/
 def Facts12.Good (F : Facts12) : Prop :=
   F.wsdlSkeleton = expectedSkeleton ∧ F.attrPublish = .afterInit ∧ F.sortPublish = .afterInit ∧
-  F.memoPublish = .afterInit ∧ F.cdictPublish = .afterInit ∧ F.errRead = .underLock ∧ F.parked = []
+  F.memoPublish = .afterInit ∧ F.cdictPublish = .afterInit ∧ F.errRead = .underLock ∧ F.parked = [] ∧
+  F.sharedContextCells = []
 
 instance (F : Facts12) : Decidable F.Good := by unfold Facts12.Good; infer_instance
 
